@@ -456,7 +456,16 @@ func (p *Parser) stopAtMatches(r rune) bool {
 	}
 	rest := p.stopAt[w:]
 	for len(p.bs)-int(p.bsp) < len(rest) {
-		if p.fill() == 0 {
+		// Keep the bytes of r in the buffer if they are still there,
+		// as a literal may start with them.
+		keep := uint(w)
+		if keep > p.bsp {
+			keep = 0
+		}
+		p.bsp -= keep
+		n := p.fill()
+		p.bsp += keep
+		if n == 0 {
 			return false
 		}
 	}
